@@ -1,10 +1,11 @@
 import Drx.Stxt
 import Drx.Fmap
 import Drx.TextSpec
+import Drx.IdxSteps
 import Drx.Codec
 import Drx.Drv.Util
 namespace Drx.Drv.Text
-open Drx Drx.Drv Drx.Fmap Drx.Stxt Drx.TextSpec
+open Drx Drx.Drv Drx.Fmap Drx.Stxt Drx.TextSpec Drx.IdxSteps
 
 /-- "-" = empty list, else comma separated -/
 def items (s : String) : List String := if s = "-" then [] else s.splitOn ","
@@ -86,6 +87,29 @@ def run : List String → Option String
     -- what stxt2json does: the font map decoded from the Fmap chunk is handed to the text decoder
     let dec ← codecDec c; let fb ← bytesOfHex fh; let sb ← bytesOfHex sh
     some (rJ' TextData.toJ ((parseFmap dec fb).bind fun fm => parseStxt dec fm sb))
+  -- C10 support: rounds started by all loops of the reader (style-record loop + nested font lookup; metadata loop + font loop)
+  | ["steps", "stxt", h] => do
+    let dec ← codecDec "default"; let b ← bytesOfHex h
+    let r := parseStxtSteps dec 0 b
+    some (toString (r.1 + r.2))
+  | ["steps", "stxt", h, c] => do
+    let dec ← codecDec c; let b ← bytesOfHex h
+    let r := parseStxtSteps dec 0 b
+    some (toString (r.1 + r.2))
+  | ["steps", "stxt", h, c, nf] => do
+    let dec ← codecDec c; let b ← bytesOfHex h; let nf ← parseNat nf
+    let r := parseStxtSteps dec nf b
+    some (toString (r.1 + r.2))
+  | ["steps", "fmap", h] => do
+    let dec ← codecDec "default"; let b ← bytesOfHex h
+    some (toString (parseFmapSteps dec b).1)
+  | ["steps", "fmap", h, c] => do
+    let dec ← codecDec c; let b ← bytesOfHex h
+    some (toString (parseFmapSteps dec b).1)
+  | ["stepsx", "fmap", h, c] => do
+    let dec ← codecDec c; let b ← bytesOfHex h
+    let r := parseFmapSteps dec b
+    some (J.obj [("rounds", J.nat r.1), ("bytes", J.nat r.2)]).render
   | ["specfont", fm, id] => do
     let fm ← (items fm).mapM fontInfo; let id ← parseInt id
     some (fixDel (J.str (specFont fm id)).render)
